@@ -17,7 +17,16 @@ import (
 )
 
 // RepoDir is the checkout of boz/kcache whose sources are read at run time.
-var RepoDir = "/repo"
+var RepoDir = repoDir()
+
+// repoDir: /repo, unless the testing aid VERIF_MUT_DIR (a full copy of /repo with a candidate change, see vbuild.sh)
+// is set; registered commands never set it.
+func repoDir() string {
+	if d := os.Getenv("VERIF_MUT_DIR"); d != "" {
+		return d
+	}
+	return "/repo"
+}
 
 // typeTuple is one genny invocation of the Makefile target generate-types.
 type typeTuple struct {
